@@ -1153,6 +1153,60 @@ def rule_G_SELFDROP(ctx, repo):
                      '%s:%d' % (m.rel, st.lineno))
     if not n:
         ctx.note('G-VAL (self drop): _keygen drops no leading positional argument; nothing to check')
+    # ... (a) when the guard can be satisfied through the *index* 0, that index leaves the index set with the instance (else it masks the first real parameter
+    # of the shortened argument list as well); (b) the outcome of the "is the first argument the bound instance" probe matters only together with "the first
+    # parameter is ignored" - a test on the probe alone changes the key of ordinary calls depending on what attributes the first argument happens to have,
+    # i.e. differently for the positional and the keyword spelling of the same call
+    probe_vars = set()
+    for x in ast.walk(f):
+        if isinstance(x, ast.Assign) and len(x.targets) == 1 and isinstance(x.targets[0], ast.Name) and isinstance(x.value, ast.Call) \
+                and isinstance(x.value.func, ast.Name) and x.value.func.id == 'getattr' and x.value.args \
+                and any(isinstance(y, ast.Name) and y.id in pos for y in ast.walk(x.value.args[0])) \
+                and len(x.value.args) > 1 and any(isinstance(y, ast.Attribute) and y.attr == '__name__' for y in ast.walk(x.value.args[1])):
+            probe_vars.add(x.targets[0].id)
+    for st in ast.walk(f):
+        if not isinstance(st, ast.If):
+            continue
+        cj = conjuncts(st.test)
+        uses_probe = [c for c in cj if any(isinstance(y, ast.Name) and y.id in probe_vars for y in ast.walk(c))]
+        if not uses_probe:
+            continue
+        sel = [c for c in cj if selects_first(c)]
+        if not sel and not st.orelse and st.body and all(isinstance(b_, ast.If) and not b_.orelse and any(selects_first(c) for c in conjuncts(b_.test)) for b_ in st.body):
+            continue      # `if _bound:` wrapping nothing but `if <first parameter ignored>:` blocks - the same conjunction, nested
+        ctx.ob('G-VAL', '_keygen: the bound-instance probe is only acted on when the first parameter is ignored (line %d)' % st.lineno, bool(sel))
+        if not sel:
+            ctx.fail('G-VAL', fi.qual, 'bound-instance probe acted on without "first parameter ignored"',
+                     '_keygen branches on `%s` alone: for a plain function whose first positional argument happens to have an attribute named like the function '
+                     '(split(text, sep) called with a str) the key is built differently than when the same value is passed by keyword - two spellings of one call, two keys'
+                     % unparse(st.test)[:60], '%s:%d' % (m.rel, st.lineno))
+            continue
+        # (a)
+        def index_alts(c):
+            if isinstance(c, ast.BoolOp) and isinstance(c.op, ast.Or):
+                out = []
+                for v in c.values:
+                    out.extend(index_alts(v))
+                return out
+            if isinstance(c, ast.Compare) and isinstance(c.left, ast.Constant) and c.left.value == 0 and isinstance(c.comparators[0], ast.Name):
+                return [c.comparators[0].id]
+            return []
+        for setname in set(a for c in sel for a in index_alts(c)):
+            rebased = False
+            for y in [z for s_ in st.body for z in ast.walk(s_)]:
+                if isinstance(y, ast.Call) and isinstance(y.func, ast.Attribute) and y.func.attr in ('discard', 'remove', 'difference_update') \
+                        and isinstance(y.func.value, ast.Name) and y.func.value.id == setname:
+                    rebased = True
+                if isinstance(y, (ast.Assign, ast.AugAssign)):
+                    tg = y.targets[0] if isinstance(y, ast.Assign) else y.target
+                    if isinstance(tg, ast.Name) and tg.id == setname:
+                        rebased = True
+            ctx.ob('G-VAL', '_keygen: index 0 leaves `%s` together with the instance' % setname, rebased)
+            if not rebased:
+                ctx.fail('G-VAL', fi.qual, 'index 0 stays in the ignore set after the instance was cut',
+                         '_keygen cuts the instance out of the positional arguments when index 0 is ignored (`%s`) but leaves 0 in `%s`: positions have shifted by one, so '
+                         'the stale index now masks the first *real* parameter - calls that differ in it share a key and the cache answers one with the other\'s result'
+                         % (unparse(st.test)[:60], setname), '%s:%d' % (m.rel, st.lineno))
     # G-FORMS (the specification is read against the signature, not against one call): the sets of ignored indices / names are computed from the
     # specification and the function's parameter names.  The *number of arguments this call happens to pass positionally* must not enter them: a
     # negative or relative index resolved with len(args) masks different parameters in f(1, 2, True), f(1, 2, verbose=True) and f(x=1, y=2, verbose=True).
@@ -1261,3 +1315,24 @@ def rule_V_PARTIALSHAPE(ctx, repo):
                      % (fname, obj, what), '%s:%d' % (m.rel, (soft or unwraps)[0].lineno))
     if n < 1:
         raise AnalysisError('V-TRYRESET (partial shape): no function of klepto/_inspect.py unwraps `.func` (signature / validate, or a helper they share, is an anchor)')
+
+
+def rule_V_DOUBLESTAR(ctx, repo):
+    """V-DUP (one ** per call).  `f(**a, **b)` raises TypeError("multiple values for keyword argument") as soon as the two mappings share a key - before f runs.
+    Where the mappings are a partial's stored keywords and the keywords of the call, sharing a key is legal (the call's value overrides the stored one): a
+    validation that forwards both with two `**` reports such a call as invalid although the interpreter accepts it.  Mappings are merged first
+    (dict(a, **b) / {**a, **b}: later wins), then expanded once."""
+    n = 0
+    for name in ('_inspect', '_cache', 'safe', 'rounding', 'keymaps'):
+        m = repo.mod(name)
+        for node in ast.walk(m.tree):
+            if isinstance(node, ast.Call):
+                n += 1
+                stars = [k for k in node.keywords if k.arg is None]
+                if len(stars) >= 2:
+                    ctx.ob('V-DUP', '%s:%d one ** expansion per call' % (m.rel, node.lineno), False)
+                    ctx.fail('V-DUP', '%s:%d' % (m.rel, node.lineno), 'two ** expansions in one call',
+                             '`%s` expands two mappings into one call: when they share a key (a keyword a partial stores and the caller repeats - a legal override) the '
+                             'interpreter raises TypeError before the callee runs, and a call that binds fine is reported as invalid (or a key cannot be computed)'
+                             % ' '.join(unparse(node).split())[:70], '%s:%d' % (m.rel, node.lineno))
+    ctx.ob('V-DUP', 'calls examined for multiple ** expansions', True, n=n)
